@@ -32,6 +32,10 @@ open Ezpz
 #check @model_newtonRun_C02                         -- C02 for the continuing rounds the model's loop executes
 #check @model_newtonRun_C02_2                       -- ... for every kind except point-on-arc
 #check @model_newtonLoop_C02                        -- ... for the loop's result (step-size return included)
+#check @kindC1_pointArcCoincident                  -- PointArcCoincident in the Fréchet bridge (StrictPAC)
+#check @kindC1_of_regular3                          -- ALL 23 kinds: Jacobian rows are Fréchet derivatives, continuous (RegularAt3)
+#check @pacB_not_kindC1                             -- ... and with a distance exactly EPSILON the row is not continuous
+#check @model_solve_C02_single_level_3              -- C02 at the public entry point, every kind
 #check @model_solve_C02_single_level                -- ... at the public entry point, one priority level
 #check @pointLineDistance_numerator_forms_agree     -- fix F21 does not change the meaning
 #check @circleTangentToCircle_row_or_flag           -- fix F22
@@ -113,6 +117,8 @@ open Ezpz
 #check @solveWithPriority_renumber
 #check @solveWithPriority_perm_withAnalysis
 #check @solveWithPriority_renumber_withAnalysis
+#check @EquivEx.renumber_example_with_step          -- ... instantiated on a successful run with a genuine step
+#check @EquivEx.perm_example_with_step
 #check @dof_row_perm
 #check @dof_col_perm
 #check @GN.step_row_perm
